@@ -30,12 +30,16 @@ import (
 )
 
 // histGC collects garbage BETWEEN two histories, every so many of them (never inside one).
-type histGC struct{ n int }
+type histGC struct {
+	n    int
+	last uint64
+}
 
 func (g *histGC) between() {
 	g.n++
-	if g.n%1500 == 0 {
+	if a := heapAllocs(); g.n%1500 == 0 || a-g.last > 256<<20 {
 		runtime.GC()
+		g.last = a
 	}
 }
 
@@ -49,6 +53,8 @@ type histOp struct {
 	// boundary sizes, calls that leave scratch state behind); all operations are used as
 	// first and last members of pairs
 	perturbing bool
+	// firstOnly: an expensive operation that is only used as the first member of histories
+	firstOnly bool
 }
 
 func histOutcome(f func() string) (s string) {
@@ -75,7 +81,7 @@ func histFamily(c *Ctx, family string, mk func() []histOp) {
 			old := debug.SetGCPercent(-1)
 			defer debug.SetGCPercent(old)
 			base := make([]string, n)
-			var gc histGC
+			gc := histGC{last: heapAllocs()}
 			// alphabets of more than 300 operations: only the perturbing ones are first members
 			firsts := make([]int, 0, n)
 			for i := range ops {
@@ -97,6 +103,7 @@ func histFamily(c *Ctx, family string, mk func() []histOp) {
 				if r%2 == 1 {
 					i = (start - k + 2*n) % n
 				}
+				gc.between()
 				base[i] = histOutcome(ops[i].run)
 				u.Eval(1)
 				u.Transition(1)
@@ -104,6 +111,7 @@ func histFamily(c *Ctx, family string, mk func() []histOp) {
 			}
 			// a second look at every operation: the depth-1 pass itself is a history
 			for i := 0; i < n; i++ {
+				gc.between()
 				out := histOutcome(ops[i].run)
 				u.Eval(1)
 				u.Transition(1)
@@ -116,6 +124,9 @@ func histFamily(c *Ctx, family string, mk func() []histOp) {
 			for fi := r; fi < len(firsts); fi += R {
 				p := firsts[fi]
 				for ci := 0; ci < n; ci++ {
+					if ops[ci].firstOnly {
+						continue
+					}
 					gc.between()
 					histOutcome(ops[p].run)
 					out := histOutcome(ops[ci].run)
@@ -155,6 +166,9 @@ func histFamily(c *Ctx, family string, mk func() []histOp) {
 				for pi := r; pi < len(pert); pi += R {
 					for _, q := range pert {
 						for _, ci := range lasts {
+							if ops[ci].firstOnly || ops[q].firstOnly {
+								continue
+							}
 							gc.between()
 							histOutcome(ops[pert[pi]].run)
 							histOutcome(ops[q].run)
